@@ -62,7 +62,7 @@ def _check_repo_import():
 def run_one(prop, seed):
     """Generate and run the case for one seed.  Returns (kind, payload)."""
     from .terms import BuildError
-    from .engine import HarnessError
+    from .engine import HarnessError, SimKill
     from . import isolation
 
     isolation.reset()
@@ -75,7 +75,7 @@ def run_one(prop, seed):
         return "ok", rep
     except BuildError as e:
         return "discard", str(e)[:200]
-    except HarnessError as e:
+    except (HarnessError, SimKill) as e:
         return "harness", f"seed={seed}: {e!r}\n{traceback.format_exc()}"
     except Exception as e:
         return "harness", f"seed={seed}: {e!r}\n{traceback.format_exc()}"
@@ -475,6 +475,8 @@ def check(pid, tier, verif_seed, runs=None, workers=None, cap_s=None, minimise_s
     )
     for line in known_lines:
         print(line)
+    if done and discards > 0.5 * done:
+        harness.append(f"{discards} of {done} generated worlds were discarded (could not be built / do not terminate on fresh objects): the batch says nothing")
     if harness:
         for h in harness[:10]:
             print("HARNESS-ERROR " + h.replace("\n", "\n    "))
